@@ -1,3 +1,4 @@
+import RedactVerif.Props.TransPP
 import RedactVerif.Props.L2
 import RedactVerif.Proofs.U.Top
 import RedactVerif.Props.FactsClassify
